@@ -19,9 +19,10 @@ type c04Step struct {
 	Kind int `json:"kind"` // 0 nil, 1 io.EOF, 2 injected error
 }
 type c04In struct {
-	BufSize int       `json:"buf_size"`
-	Script  []c04Step `json:"script"`
-	Stream  string    `json:"stream_hex"`
+	Buffered bool      `json:"buffered,omitempty"` // BufferedReadAhead (buf_size = maxBufLen > 1) instead of ImmediateReadAhead
+	BufSize  int       `json:"buf_size"`
+	Script   []c04Step `json:"script"`
+	Stream   string    `json:"stream_hex"`
 }
 type c04Out struct {
 	Completed bool     `json:"completed"`
@@ -88,9 +89,17 @@ func c04Run(in c04In) (out c04Out) {
 			out = c04Out{Completed: false, Note: fmt.Sprint(e)}
 		}
 	}()
-	ra := readahead.NewImmediate(rd, in.BufSize)
+	var ra readahead.Scanner
 	nerr := 0
-	ra.OnError(func(error) { nerr++ })
+	if in.Buffered {
+		b := readahead.NewBuffered(rd, in.BufSize)
+		b.OnError(func(error) { nerr++ })
+		ra = b
+	} else {
+		im := readahead.NewImmediate(rd, in.BufSize)
+		im.OnError(func(error) { nerr++ })
+		ra = im
+	}
 	var toks, rets [][]byte
 	for ra.Scan() {
 		t := ra.Bytes()
@@ -123,11 +132,15 @@ func c04Case(in c04In) Case {
 		return "[" + strings.Join(ps, ";") + "]"
 	}
 	var coq string
+	cname := "c"
+	if in.Buffered {
+		cname = "cb"
+	}
 	if out.Completed {
-		coq = fmt.Sprintf("c %d %s \"%s\" %s %s %d %d \"%s\"", in.BufSize, CoqList(scr), in.Stream,
+		coq = fmt.Sprintf(cname+" %d %s \"%s\" %s %s %d %d \"%s\"", in.BufSize, CoqList(scr), in.Stream,
 			q(out.Ret), q(out.End), out.Nerr, out.Rae, out.Del)
 	} else {
-		coq = fmt.Sprintf("cN %d %s \"%s\"", in.BufSize, CoqList(scr), in.Stream)
+		coq = fmt.Sprintf(cname+"N %d %s \"%s\"", in.BufSize, CoqList(scr), in.Stream)
 	}
 	// boundary classes
 	stream, _ := hex.DecodeString(in.Stream)
@@ -185,6 +198,11 @@ func c04Case(in c04In) Case {
 		tags = append(tags, "crlf")
 	}
 	tags = append(tags, fmt.Sprintf("bufsize=%d", in.BufSize))
+	if in.Buffered {
+		tags = append(tags, "scanner=buffered")
+	} else {
+		tags = append(tags, "scanner=immediate")
+	}
 	switch {
 	case len(stream) == 0:
 		tags = append(tags, "len=0")
@@ -330,6 +348,12 @@ func c04Gen(r *Rng, n int, tier string) []Case {
 		}
 		stream := c04Stream(r, ln)
 		in := c04In{BufSize: bs, Script: c04Script(r, stream, bs), Stream: hex.EncodeToString(stream)}
+		if r.Chance(1, 3) {
+			in.Buffered = true
+			if in.BufSize < 2 {
+				in.BufSize = 2
+			}
+		}
 		cases = append(cases, c04Case(in))
 	}
 	return cases
@@ -388,6 +412,9 @@ func c04Exhaustive(L int) []Case {
 							}
 						}
 						cases = append(cases, c04Case(c04In{BufSize: bs, Script: sc2, Stream: hex.EncodeToString(s)}))
+						if bs >= 2 {
+							cases = append(cases, c04Case(c04In{Buffered: true, BufSize: bs, Script: sc2, Stream: hex.EncodeToString(s)}))
+						}
 					}
 				}
 			}
